@@ -1033,6 +1033,31 @@ def case_file_base(ctx, gtype, nseeds):
                 if f != want:
                     ctx.violation("save:%s:file-differs-from-graph" % sfmt, "%s: file holds %s, the graph is %s" % (lab, show(f), show(want)))
                 ctx.judged(("file-base-save", gtype, stem, sfmt), nontrivial=True, sample={"spec": "%s save %s <out>" % (shown, sfmt)})
+                if sfmt != fmt and k % 2 == 0:
+                    # ... and stored onto the very file it was read from, in another format (both formats spelled out)
+                    original = open(path, "rb").read()
+                    st, val, obs = build(ctx, gtype, [fmt, path, "save", sfmt, path], rnd)
+                    lab = "%s graph from file %s %s save %s <the same file>" % (gtype, fmt, shown, sfmt)
+                    ctx.count("opt:save")
+                    ctx.count("file_base_saves_onto_the_input_file")
+                    try:
+                        if st == "exc":
+                            if not isinstance(val, ValueError):
+                                ctx.violation("save:%s:raises:%s" % (sfmt, type(val).__name__), "%s ended in %r" % (lab, val))
+                            else:
+                                ctx.count("refusals_observed")
+                        else:
+                            try:
+                                f = ref.read_saved(GRAPH_KIND[gtype], sfmt, path)
+                                if f != want:
+                                    ctx.violation("save:%s:file-differs-from-graph" % sfmt, "%s: file holds %s, the graph is %s" % (lab, show(f), show(want)))
+                            except ref.FileFormatError as e:
+                                ctx.violation("save:%s:file-not-in-format" % sfmt, "%s: afterwards the file is not a %s description of a %s graph: %s"
+                                              % (lab, sfmt, gtype, e))
+                        ctx.judged(("file-base-save-onto-input", gtype, stem, fmt, sfmt), nontrivial=True, sample={"spec": lab})
+                    finally:
+                        with open(path, "wb") as fh:
+                            fh.write(original)
             for opts in [[]] + [[o] for o in optlist] + ([optlist] if len(optlist) > 1 else []):
                 for _ in range(nseeds):
                     rnd = ("fair", 0, r.randrange(1 << 30))
